@@ -103,6 +103,16 @@ def _foreach(c, colnames):
             return ('foreach', a, (('L', body),))
         return ('foreach', seq, (('L', (_fold(elt, colnames),)),))
     if c[0] == 'foreach':
+        seq = c[1]
+        if isinstance(seq, tuple) and seq[0] == 'call' and str(seq[1]).endswith('product') and len(seq[2]) == 2 and \
+                isinstance(seq[2][1], tuple) and seq[2][1] and seq[2][1][0] in ('tuple', 'L') and \
+                all(isinstance(x, tuple) and x and x[0] == 'L' for x in c[2]):
+            # an append loop over product(A, <enumerated B>): the same blocks as the comprehension over it
+            a, b = seq[2]
+            items = b[1:] if b[0] == 'tuple' else b[1]
+            body = tuple(_fold(_subst(e, {('elem', seq, (0,)): ('elem', a), ('elem', seq, (1,)): x}), colnames)
+                         for x in items for part in c[2] for e in part[1])
+            return ('foreach', a, (('L', body),))
         return ('foreach', c[1], tuple(_foreach(x, colnames) for x in c[2]))
     if c[0] == 'L':
         return ('L', tuple(_fold(x, colnames) for x in c[1]))
